@@ -73,7 +73,11 @@ def shard(shard_no, nshards, seed, tier, extra):
     B = evm.boundary_constants()
     for i in range(n):
         r = rng.random()
-        if r < 0.25:
+        pre_limit = None
+        if r < 0.1:
+            pre_limit = rng.choice([1, 2, 3, 5, 8, 16, 50, 250])
+            code, feats = progs.near_limit_operands(rng, pre_limit)
+        elif r < 0.25:
             code, feats = progs.every_producer(rng)
         elif r < 0.6:
             code, feats = progs.growers(rng)
@@ -86,6 +90,8 @@ def shard(shard_no, nshards, seed, tier, extra):
             code, feats = progs.read_mask_write(rng)
         cfg = {"vsize": rng.choice([1, 2, 3, 5, 8, 16, 50, 250, 1000]), "iters": rng.randint(1, 12),
                "forks": rng.choice([1, 2, 5, 20]), "permissive": True}
+        if pre_limit is not None:
+            cfg["vsize"] = pre_limit
         if "shape:forkbomb" in feats or "shape:random" in feats or "shape:table" in feats:
             cfg["forks"] = rng.choice([1, 2, 3])
             cfg["iters"] = rng.randint(1, 4)
